@@ -352,14 +352,14 @@ static void Tuple_Pop_At(var self, var key) {
   }
 #endif
   
-  memmove(&t->items[i+0], &t->items[i+1], sizeof(var) * (nitems - (size_t)i));
-
 #if CELLO_ALLOC_CHECK == 1
   if (header(self)->alloc is (var)AllocStack
   or  header(self)->alloc is (var)AllocStatic) {
     throw(ValueError, "Cannot reallocate Tuple, not on heap!");
   }
 #endif
+  
+  memmove(&t->items[i+0], &t->items[i+1], sizeof(var) * (nitems - (size_t)i));
   
   t->items = realloc(t->items, sizeof(var) * nitems);
   
